@@ -30,7 +30,10 @@ Record location := { l_host : option N;   (* None: relative Location *)
                      l_https : bool;      (* scheme of an absolute Location *)
                      l_query : qargs }.   (* the query of the Location *)
 Record reply := { rp_id : N; rp_status : N; rp_loc : option location; rp_close : bool }.
-Inductive event := Enq (t : N) | Pass (o : option reply).
+(* Pass rc o: one Client.service(); rc = the connector's reconnect timer had expired at its start.
+   Eof: the connector read the server's close (connector.cutoff); in the harness this happens in the
+   receive step of the pass that also reads the last bytes of a reply, so it is placed before that Pass *)
+Inductive event := Enq (t : N) | Pass (rc : bool) (o : option reply) | Eof.
 
 (* payload of a request: kind (0 none, 1 body=, 2 data=, 3 fargs=) and an id of its content *)
 Definition payload := (N * N)%type.
@@ -59,16 +62,18 @@ Record cstate := {
   redirectable : bool;
   rq_method : N;            (* requester.method *)
   rs_method : N;            (* respondent.method *)
+  reconn : bool;            (* connector.reconnectable with a tymeout *)
+  pending : option (witem * qargs * payload);   (* a request sitting in connector.txbs of a cut off connection *)
   rq_pay : payload;         (* requester.body / .data / .fargs *)
   qlog : list (N * qargs);  (* per queued tag: the qargs its request dict got in Client.request (append only) *)
   rq_target : target;       (* requester.path / .qargs *)
   rtargets : list target }. (* the requests of the entries in .redirects *)
 
-Definition init_m (sec rd : bool) (m : N) : cstate :=
+Definition init_m (rcn sec rd : bool) (m : N) : cstate :=
   {| queue := []; waited := false; latest := None; responses := []; redirects := [];
      conn := 0; host := 0; https := sec; cut := false; sent := false; wire := []; redirectable := rd;
-     rq_method := m; rs_method := m; rq_pay := nopay; qlog := []; rq_target := (false, 0, []); rtargets := [] |}.
-Definition init (sec rd : bool) : cstate := init_m sec rd 0.
+     rq_method := m; rs_method := m; reconn := rcn; pending := None; rq_pay := nopay; qlog := []; rq_target := (false, 0, []); rtargets := [] |}.
+Definition init (sec rd : bool) : cstate := init_m false sec rd 0.
 
 Definition HEAD : N := 1.
 (* Respondent.parseHead: the reply has no body *)
@@ -94,7 +99,7 @@ Definition enq (qof : N -> option qargs) (s : cstate) (t : N) : cstate :=
      redirects := redirects s; conn := conn s; host := host s; https := https s; cut := cut s;
      sent := sent s; wire := wire s; redirectable := redirectable s;
        rq_method := rq_method s; rs_method := rs_method s;
-       rq_pay := rq_pay s; qlog := qlog s ++ [(t, match qof t with Some q => q | None => snd (rq_target s) end)]; rq_target := rq_target s; rtargets := rtargets s |}.
+       reconn := reconn s; pending := pending s; rq_pay := rq_pay s; qlog := qlog s ++ [(t, match qof t with Some q => q | None => snd (rq_target s) end)]; rq_target := rq_target s; rtargets := rtargets s |}.
 
 Definition on_wire (s : cstate) (it : witem) (q : qargs) (py : payload) : wentry :=
   {| w_conn := conn s; w_https := https s; w_host := host s; w_item := it; w_q := q; w_pay := py |}.
@@ -122,6 +127,8 @@ Definition pump (mof : N -> N) (qof : N -> option qargs) (pq : N -> qargs) (pay 
        wire := if cut s then wire s else wire s ++ [on_wire s (WReq t) (sent_q qof pq s t) (wire_pay mof pay t)];
        redirectable := redirectable s;
        rq_method := mof t; rs_method := mof t;
+       reconn := reconn s;
+       pending := if cut s then Some (WReq t, sent_q qof pq s t, wire_pay mof pay t) else None;
        rq_pay := pay t; qlog := qlog s; rq_target := (false, t, sent_q qof pq s t); rtargets := rtargets s |}
   end.
 
@@ -134,11 +141,11 @@ Definition deliver (s : cstate) (st : N) (err cut' : bool) : cstate :=
      redirects := []; conn := conn s; host := host s; https := https s; cut := cut';
      sent := false; wire := wire s; redirectable := redirectable s;
        rq_method := rq_method s; rs_method := rs_method s;
-       rq_pay := rq_pay s; qlog := qlog s; rq_target := rq_target s; rtargets := [] |}.
+       reconn := reconn s; pending := pending s; rq_pay := rq_pay s; qlog := qlog s; rq_target := rq_target s; rtargets := [] |}.
 
 (* serviceResponse on a completely parsed reply *)
 Definition complete (s : cstate) (r : reply) : cstate :=
-  let cut' := cut s || rp_close r in
+  let cut' := cut s in   (* rp_close is informative only: the close is seen as an Eof event *)
   if redirectable s && is_redirect (rp_status r) then
     match rp_loc r with
     | None => deliver s (rp_status r) true cut'            (* InvalidURL: no Location *)
@@ -154,6 +161,8 @@ Definition complete (s : cstate) (r : reply) : cstate :=
            wire := if cut' then wire s else wire s ++ [on_wire s (WRedir (rp_id r)) (l_query l) nopay];
            redirectable := redirectable s;
        rq_method := rq_method s; rs_method := rq_method s;
+           reconn := reconn s;
+           pending := if cut' then Some (WRedir (rp_id r), l_query l, nopay) else None;
            rq_pay := nopay; qlog := qlog s; rq_target := (true, rp_id r, l_query l); rtargets := rtargets s ++ [rq_target s] |}
       else if https s && negb sec then
         deliver s (rp_status r) true cut'                  (* https -> http refused *)
@@ -166,9 +175,32 @@ Definition complete (s : cstate) (r : reply) : cstate :=
                                  w_item := WRedir (rp_id r); w_q := l_query l; w_pay := nopay |}];
            redirectable := redirectable s;
        rq_method := rq_method s; rs_method := rq_method s;
+           reconn := false; pending := None;
            rq_pay := nopay; qlog := qlog s; rq_target := (true, rp_id r, l_query l); rtargets := rtargets s ++ [rq_target s] |}
     end
   else deliver s (rp_status r) false cut'.
+
+(* Client.service on a cut off, reconnectable connector whose timer expired: connector.reopen() (a new
+   connection to the same host, .txbs kept), then connect and send what was waiting in .txbs *)
+Definition reconnect (s : cstate) : cstate :=
+  {| queue := queue s; waited := waited s; latest := latest s; responses := responses s;
+     redirects := redirects s; conn := conn s + 1; host := host s; https := https s; cut := false;
+     sent := match pending s with Some _ => true | None => sent s end;
+     wire := match pending s with
+             | Some (it, q, py) => wire s ++ [{| w_conn := conn s + 1; w_https := https s; w_host := host s;
+                                                 w_item := it; w_q := q; w_pay := py |}]
+             | None => wire s
+             end;
+     redirectable := redirectable s; rq_method := rq_method s; rs_method := rs_method s;
+     reconn := reconn s; pending := None; rq_pay := rq_pay s; qlog := qlog s;
+     rq_target := rq_target s; rtargets := rtargets s |}.
+
+Definition set_cut (s : cstate) : cstate :=
+  {| queue := queue s; waited := waited s; latest := latest s; responses := responses s;
+     redirects := redirects s; conn := conn s; host := host s; https := https s; cut := true;
+     sent := sent s; wire := wire s; redirectable := redirectable s; rq_method := rq_method s;
+     rs_method := rs_method s; reconn := reconn s; pending := pending s; rq_pay := rq_pay s; qlog := qlog s;
+     rq_target := rq_target s; rtargets := rtargets s |}.
 
 (* the server saw rq_method on the wire and sent body bytes accordingly; the respondent
    reads the reply with rs_method *)
@@ -178,12 +210,14 @@ Definition readable (s : cstate) (r : reply) : bool :=
 Definition step (mof : N -> N) (qof : N -> option qargs) (pq : N -> qargs) (pay : N -> payload) (s : cstate) (e : event) : cstate :=
   match e with
   | Enq t => enq qof s t
-  | Pass o =>
-    let s1 := pump mof qof pq pay s in
+  | Pass rc o =>
+    let s0 := if rc && cut s && reconn s then reconnect s else s in
+    let s1 := pump mof qof pq pay s0 in
     match o with
     | Some r => if waited s1 && sent s1 && readable s1 r then complete s1 r else s1
     | None => s1
     end
+  | Eof => set_cut s
   end.
 
 Definition run (mof : N -> N) (qof : N -> option qargs) (pq : N -> qargs) (pay : N -> payload) (s : cstate) (evs : list event) : cstate :=
@@ -195,7 +229,7 @@ Definition origin (e : entry) : option N :=
 Definition inflight (s : cstate) : list (option N) :=
   if waited s then [match redirects s with h :: _ => snd h | [] => latest s end] else [].
 Fixpoint enqs (evs : list event) : list N :=
-  match evs with [] => [] | Enq t :: r => t :: enqs r | Pass _ :: r => enqs r end.
+  match evs with [] => [] | Enq t :: r => t :: enqs r | Pass _ _ :: r => enqs r | Eof :: r => enqs r end.
 Fixpoint wire_reqs (w : list wentry) : list N :=
   match w with
   | [] => []
@@ -213,10 +247,10 @@ Fixpoint run_trace (mof : N -> N) (qof : N -> option qargs) (pq : N -> qargs) (p
   | e :: r =>
     let s' := step mof qof pq pay s e in
     let (sf, tr) := run_trace mof qof pq pay s' r in
-    (sf, match e with Pass _ => observe s' :: tr | Enq _ => tr end)
+    (sf, match e with Pass _ _ => observe s' :: tr | _ => tr end)
   end.
 
-Record case := { c_https : bool; c_redirectable : bool; c_cmethod : N; c_methods : list (N * N); c_qargs : list (N * option qargs); c_pathq : list (N * qargs); c_pays : list (N * payload);
+Record case := { c_reconn : bool; c_https : bool; c_redirectable : bool; c_cmethod : N; c_methods : list (N * N); c_qargs : list (N * option qargs); c_pathq : list (N * qargs); c_pays : list (N * payload);
                  c_events : list event;
                  c_trace : list obs; c_entries : list entry; c_wire : list wentry }.
 
@@ -248,7 +282,7 @@ Fixpoint pay_of (l : list (N * payload)) (t : N) : payload :=
   match l with [] => nopay | (k, p) :: r => if k =? t then p else pay_of r t end.
 
 Definition check_case (c : case) : bool :=
-  let (s, tr) := run_trace (mof_of (c_methods c)) (qof_of (c_qargs c)) (qlookup (c_pathq c)) (pay_of (c_pays c)) (init_m (c_https c) (c_redirectable c) (c_cmethod c)) (c_events c) in
+  let (s, tr) := run_trace (mof_of (c_methods c)) (qof_of (c_qargs c)) (qlookup (c_pathq c)) (pay_of (c_pays c)) (init_m (c_reconn c) (c_https c) (c_redirectable c) (c_cmethod c)) (c_events c) in
   list_eqb obs_eqb tr (c_trace c) && list_eqb entry_eqb (responses s) (c_entries c) &&
   list_eqb wentry_eqb (wire s) (c_wire c).
 
@@ -260,14 +294,16 @@ Definition check_case (c : case) : bool :=
 Definition n_branches : nat := 12.
 Definition branch_of (mof : N -> N) (qof : N -> option qargs) (pq : N -> qargs) (pay : N -> payload) (s : cstate) (e : event) : list nat :=
   match e with
+  | Eof => []
   | Enq _ => [0%nat]
-  | Pass o =>
+  | Pass rc o =>
+    let s := if rc && cut s && reconn s then reconnect s else s in
     let s1 := pump mof qof pq pay s in
     let p := if waited s then [] else match queue s with [] => [] | _ => [if cut s then 3%nat else 2%nat] end in
     match o with
     | Some r =>
       if waited s1 && sent s1 && readable s1 r then
-        p ++ (if rp_close r then [11%nat] else []) ++
+        p ++ (if cut s1 then [11%nat] else []) ++
         (if is_redirect (rp_status r) then
            if redirectable s1 then
              match rp_loc r with
@@ -287,4 +323,4 @@ Definition branch_of (mof : N -> N) (qof : N -> option qargs) (pq : N -> qargs) 
 Fixpoint branches (mof : N -> N) (qof : N -> option qargs) (pq : N -> qargs) (pay : N -> payload) (s : cstate) (evs : list event) : list nat :=
   match evs with [] => [] | e :: r => branch_of mof qof pq pay s e ++ branches mof qof pq pay (step mof qof pq pay s e) r end.
 Definition case_branches (c : case) : list nat :=
-  branches (mof_of (c_methods c)) (qof_of (c_qargs c)) (qlookup (c_pathq c)) (pay_of (c_pays c)) (init_m (c_https c) (c_redirectable c) (c_cmethod c)) (c_events c).
+  branches (mof_of (c_methods c)) (qof_of (c_qargs c)) (qlookup (c_pathq c)) (pay_of (c_pays c)) (init_m (c_reconn c) (c_https c) (c_redirectable c) (c_cmethod c)) (c_events c).
